@@ -30,11 +30,16 @@ func (obj Symbol) Readably(b []byte, p *Printer) []byte {
 	if obj[0] == ':' {
 		return append(b, p.caseName(string(obj))...)
 	}
-	for _, c := range []byte(obj) {
+	for i, c := range []byte(obj) {
 		if needPipeMap[c] == 'x' {
 			if c == '/' && !strings.ContainsAny(string(obj), "0123456789") {
 				// Only a name that could be taken for a ratio needs
 				// bars for a slash: / and /= are plain symbols.
+				continue
+			}
+			if c == '&' && i == 0 {
+				// The reader takes an ampersand as the start of a
+				// token, &optional, but not inside of one.
 				continue
 			}
 			b = append(b, '|')
